@@ -161,6 +161,11 @@ def spec_c18(tier):
         c["io_fault_sites_hit"] = sorted(sets.get("io_fault_files", ()))
         c["flags_x_verdict_x_status_reached"] = sorted(sets.get("flags_verdict_status", ()))
         c["invocations"] = counters.get("invocations", 0)
+        c["jobs"] = c["evaluations"]
+        # one evaluation = one simulated invocation of the command line; distinct = distinct (job, flags, fault, seed,
+        # status, files-on-disk, faults-fired) digests
+        c["evaluations"] = counters.get("invocations", 0)
+        c["distinct_nontrivial"] = len(sets.get("invocation_digests", ()))
 
     return {
         "level": "fault_enumeration",
